@@ -657,8 +657,8 @@ def r04_8(facts, res):
             if w is not None:
                 res.add(Finding("R04-8", key, "%s can print the declaration %r, which production XMLDecl does not derive (pseudo-attributes out "
                                 "of order or malformed): the output is not well-formed" % (f["path"], al.render(w)), f["file"], f["line"], {}))
-    if st["paths"] < 8:
-        raise BrokenCheck("R04-8: %d declaration paths (floor 8)" % st["paths"])
+    if st["paths"] < 4:
+        raise BrokenCheck("R04-8: %d declaration paths (floor 4)" % st["paths"])
 
 
 def run(facts, tier):
